@@ -190,11 +190,9 @@ func (m *MuxBroker) getStream(id uint32) *muxBrokerPending {
 func (m *MuxBroker) timeoutWait(id uint32, p *muxBrokerPending) {
 	// Wait for the stream to either be picked up and connected, or
 	// for a timeout.
-	timeout := false
 	select {
 	case <-p.doneCh:
 	case <-time.After(5 * time.Second):
-		timeout = true
 	}
 
 	m.Lock()
@@ -203,15 +201,14 @@ func (m *MuxBroker) timeoutWait(id uint32, p *muxBrokerPending) {
 	// Delete the stream so no one else can grab it
 	delete(m.streams, id)
 
-	// If we timed out, then check if we have a channel in the buffer,
-	// and if so, close it.
-	if timeout {
-		// Non-blocking: the connection may have been accepted at the very
-		// moment the timer fired, and we are holding the broker lock.
-		select {
-		case s := <-p.ch:
-			s.Close()
-		default:
-		}
+	// Close a connection that is still parked. Either it timed out, or it was
+	// parked after this ID had already been accepted (a second dial to the
+	// same ID), in which case nobody will ever pick it up. The receive must
+	// not block: the connection may have been accepted at the very moment the
+	// timer fired, and we are holding the broker lock.
+	select {
+	case s := <-p.ch:
+		s.Close()
+	default:
 	}
 }
